@@ -116,6 +116,9 @@ class Bag(Config):
     dd: Param[Dict[str, Dict[str, int]]] = {}
     ll: Param[List[List[int]]] = []
     ls: Param[List[List[str]]] = []
+    dl: Param[Dict[str, List[Leaf]]] = {}
+    lls: Param[List[List[Leaf]]] = []
+    ld: Param[List[Dict[str, Leaf]]] = []
     out: Meta[Path] = field(default_factory=PathGenerator("bag.out"))
 
 
@@ -232,7 +235,32 @@ class Wrap(Config):
     n: Param[int] = 0
 
 
-ALL = [Leaf, Leaf2, Pair, Floats, Node, Top, Bag, CycA, CycB, CycC, Pre, Pre2, Out, Produce, Produce2, Consume, Wrap]
+class Marker(Config):
+    """Parameter-less configuration (type-only marker)"""
+
+    __xpmid__ = "xv.marker"
+
+
+class NoArgPre(LightweightTask):
+    """Parameter-less pre-task"""
+
+    __xpmid__ = "xv.noargpre"
+
+    def execute(self):
+        from xv.defs import calls
+
+        calls.record("execute", self)
+
+
+class Tagged(Config):
+    __xpmid__ = "xv.tagged"
+
+    marker: Param[Marker]
+    markers: Param[List[Marker]] = []
+    x: Param[int] = 0
+
+
+ALL = [Marker, NoArgPre, Tagged, Leaf, Leaf2, Pair, Floats, Node, Top, Bag, CycA, CycB, CycC, Pre, Pre2, Out, Produce, Produce2, Consume, Wrap]
 
 
 class GenTask(Task):
